@@ -636,6 +636,16 @@ def searchReq (schema : List (VField κ)) (segs : List (Segment κ S)) (r : Req 
       if p.vectorOnly then .hits true (searchVectorOnly p segs r.limit)
       else .hits false (searchHybrid p segs r.limit)
 
+/-! ## compaction (`Index::compact`) -/
+
+/-- `Index::compact` with more than one segment: the live documents are read back from the
+doc store and re-ingested into one new segment.  Vector fields are not stored fields, so the
+re-ingested documents carry no vectors (`ensure_compact_safe` only looks at text, keyword
+and numeric fields). -/
+def compactSegs (segs : List (Segment κ S)) : List (Segment κ S) :=
+  if segs.length ≤ 1 then segs
+  else [((segs.flatMap id).filter (fun d => !d.deleted)).map (fun d => { d with vecs := [] })]
+
 end
 
 end SL.Vec
